@@ -53,7 +53,7 @@ impl<'b, 'c> MessageBuilder<'b, 'c> {
             flags,
             counts: SectionCounts::default(),
         };
-        // TODO: Reset the name compressor.
+        compressor.truncate(0);
         Self {
             message,
             offset: 0,
